@@ -310,7 +310,7 @@ def first_difference(x, y, path="", limit=6):
     if type(x) is not type(y):
         return f"{path}: {str(x)[:160]!r} -> {str(y)[:160]!r}"
     if isinstance(x, dict):
-        for k in x:
+        for k in sorted(x, key=lambda k: k != "canon"):
             if k not in y or x[k] != y[k]:
                 return first_difference(x[k], y.get(k), f"{path}.{k}")
         return f"{path}: keys {sorted(x)} -> {sorted(y)}"
